@@ -78,7 +78,7 @@ pub fn vcf_header(cs: &CallSet, bcf_idx: bool) -> String {
         order.reverse();
     }
     for i in order {
-        s.push_str(&format!("##contig=<ID={},length=100000{}>\n", cs.contigs[i], idx(i)));
+        s.push_str(&format!("##contig=<ID={},length=2147483647{}>\n", cs.contigs[i], idx(i)));
     }
     s.push_str(&format!(
         "##INFO=<ID=XI,Number=1,Type=Integer,Description=\"Extra info\"{}>\n",
